@@ -48,6 +48,7 @@ class PathCtx:
         self.fresh = itertools.count()
         self.log = []  # free-form event log for the harness
         self.unknown = 0
+        self.check_labels = {}
 
     # -- solver helpers
     def _check(self, *extra):
@@ -134,6 +135,7 @@ class PathCtx:
 
     def check(self, cond, label, detail=None):
         """Assertion of the harness: must hold for every value on this path."""
+        self.check_labels[label] = self.check_labels.get(label, 0) + 1
         c = as_z3_bool(cond)
         if isinstance(c, bool):
             if not c:
@@ -172,6 +174,7 @@ class Result:
         self.budget_hit = False
         self.unknown = 0
         self.samples = []
+        self.check_labels = {}
 
 
 def explore(run, max_paths=20000, timeout_ms=10000, stop_at_first_failure_per_label=True, time_budget_s=None):
@@ -207,6 +210,8 @@ def explore(run, max_paths=20000, timeout_ms=10000, stop_at_first_failure_per_la
         res.queries += ctx.n_queries
         res.solver_s += ctx.solver_s
         res.unknown += ctx.unknown
+        for k, v in ctx.check_labels.items():
+            res.check_labels[k] = res.check_labels.get(k, 0) + v
         work.extend(ctx.pending)
     return res
 
